@@ -97,6 +97,16 @@ Theorem c37_remove_effective :
 Proof. exact remove_effective_reachable. Qed.
 Print Assumptions c37_remove_effective.
 
+(** Update is effective on every reachable table: when it reports the peer as added (the case in
+    which rt.PeerAdded is called), the peer with exactly that id and address is in the table. *)
+Theorem c37_update_added_effective :
+  forall (size : Z) (local : peer_id) (ops : list op) (id : peer_id) (addr : N) (t : table),
+    (1 <= size)%Z -> length local = KB_ID_LEN ->
+    exec (new_table size local) ops = Some t ->
+    snd (update t id addr) = UAdded -> in_table (fst (update t id addr)) (id, addr).
+Proof. exact update_added_reachable. Qed.
+Print Assumptions c37_update_added_effective.
+
 (** Concurrent callers.  The theorems above are about sequential histories; the table is used
     by several goroutines, and its claim is that Update / Remove / NearestPeers are atomic with
     respect to each other because each runs under the one table lock.  That discipline is read from
